@@ -194,11 +194,15 @@ impl store::Cob for Issue {
     ) -> Result<(), Error> {
         let doc = op.identity_doc(repo)?.ok_or(Error::MissingIdentity)?;
         let concurrent = concurrent.into_iter().collect::<Vec<_>>();
+        // An operation is applied atomically: its actions are applied to a copy of the
+        // state, which replaces the current state only if all of them succeed. Otherwise,
+        // a rejected operation would leave the effects of its earlier actions behind.
+        let mut issue = self.clone();
 
         for action in op.actions {
             log::trace!(target: "issue", "Applying {} {action:?}", op.id);
 
-            if let Err(e) = self.op_action(
+            if let Err(e) = issue.op_action(
                 action,
                 op.id,
                 op.author,
@@ -211,6 +215,8 @@ impl store::Cob for Issue {
                 return Err(e);
             }
         }
+        *self = issue;
+
         Ok(())
     }
 }
